@@ -34,7 +34,7 @@ class Cfg:
     """Swarm configuration of one run (drawn first from the scenario stream)"""
 
     __slots__ = ("src_flavours", "fn_flavours", "max_susp", "max_len", "keyspace",
-                 "aclose_susp", "logging_only", "async_only", "odd_items")
+                 "aclose_susp", "logging_only", "async_only", "odd_items", "odd_sources")
 
     def __init__(self):
         self.src_flavours = ALL_FLAVOURS
@@ -46,6 +46,7 @@ class Cfg:
         self.logging_only = False
         self.async_only = False
         self.odd_items = False
+        self.odd_sources = True  # aclose returning a value / a non-coroutine awaitable, one iterator passed twice
 
     def describe(self):
         return {k: getattr(self, k) for k in self.__slots__}
@@ -120,6 +121,17 @@ class Gen:
                 items[self.ch.draw(len(items))] = None
         return items
 
+    def alias(self, srcs):
+        """Occasionally the very same iterator object is passed in two positions (the grouper idiom)"""
+        if len(srcs) >= 2 and self.cfg.odd_sources and self.ch.chance(1, 8):
+            j = self.ch.between(1, len(srcs) - 1)
+            i = self.ch.draw(j)
+            if srcs[i].flavour in ("list", "tuple", "getitem"):
+                # a container passed twice is iterated twice independently; the idiom needs a one-shot iterator
+                srcs[i].flavour = "sync_iter"
+            return (i, j)
+        return None
+
     def suspend_plan(self, n):
         ms = self.cfg.max_susp
         if self.all_suspend:
@@ -139,7 +151,10 @@ class Gen:
         ac = 0
         if self.cfg.aclose_susp and fl in ASYNC_FLAVOURS:
             ac = self.ch.draw(3)
-        return SrcPlan(name, items, fl, susp, ac)
+        mode = 0
+        if self.cfg.odd_sources and fl in ("aiter_cls", "aiter_full", "aiterable"):
+            mode = self.ch.weighted([6, 1, 1])
+        return SrcPlan(name, items, fl, susp, ac, aclose_mode=mode)
 
     def fn(self, kind, param=0):
         fls = self.cfg.fn_flavours
@@ -150,6 +165,15 @@ class Gen:
         if fl != "def":
             susp = self.suspend_plan(3)
         return FnPlan(name, kind, param, fl, susp)
+
+    def combiner(self):
+        """n-ary function for map/starmap/accumulate/reduce; rarely a plain def that hands out awaitables as values"""
+        if self.cfg.odd_items and self.ch.chance(1, 12):
+            plan = self.fn("combine_data")
+            plan.flavour = "def"
+            plan.suspend = ()
+            return plan
+        return self.fn("combine")
 
     def pred(self):
         k = self.ch.draw(3)
@@ -165,13 +189,15 @@ class Gen:
             if k == 0:
                 return None
             k -= 1
+        if self.ch.chance(1, 6):
+            return self.fn("uidkey", 0)
         return self.fn(("keyval", "div", "neg", "const")[k], self.ch.draw(2))
 
 
 class Spec:
     """A drawn scenario for one operation: pure data, instantiated once per world"""
 
-    __slots__ = ("tool", "srcs", "fns", "p", "steps", "shape")
+    __slots__ = ("tool", "srcs", "fns", "p", "steps", "shape", "_items_before")
 
     def __init__(self, tool, srcs, fns, p):
         self.tool = tool
@@ -243,7 +269,7 @@ class _Zip(ToolBase):
         equal = g.ch.chance(1, 3)
         base = g.ch.draw(g.cfg.max_len + 1)
         srcs = [g.src(g.sprinkle(g.items(base if equal else None))) for _ in range(n)]
-        return Spec("zip", srcs, [], {"strict": g.ch.chance(1, 2)})
+        return Spec("zip", srcs, [], {"strict": g.ch.chance(1, 2), "alias": g.alias(srcs)})
 
     def a(self, L, spec, S, F):
         return L.zip(*S, strict=spec.p["strict"])
@@ -259,7 +285,7 @@ class _Map(ToolBase):
     def gen(self, g):
         n = g.ch.between(1, 3)
         srcs = [g.src(g.items()) for _ in range(n)]
-        return Spec("map", srcs, [g.fn("combine")], {})
+        return Spec("map", srcs, [g.combiner()], {"alias": g.alias(srcs)})
 
     def a(self, L, spec, S, F):
         return L.map(F[0], *S)
@@ -329,7 +355,13 @@ class _Accumulate(ToolBase):
     def gen(self, g):
         fn = None if g.ch.chance(1, 3) else g.fn("combine")
         initial = ABSENT if not g.ch.chance(1, 2) else g.item()
-        return Spec("accumulate", [g.src(g.items())], [fn], {"initial": initial})
+        items = g.items()
+        if fn is None and g.cfg.odd_items and g.ch.chance(1, 4):
+            # mutable items: the default reduction must build new objects, never add in place
+            items = [[i] for i in items]
+            if initial is not ABSENT:
+                initial = [initial]
+        return Spec("accumulate", [g.src(items)], [fn], {"initial": initial})
 
     def a(self, L, spec, S, F):
         if F[0] is None:
@@ -392,8 +424,12 @@ class _Chain(ToolBase):
     def gen(self, g):
         n = g.ch.draw(5)
         srcs = [g.src(g.sprinkle(g.items())) for _ in range(n)]
-        form = g.ch.draw(3)  # 0 chain(*its) 1 from_iterable(list) 2 from_iterable(agen)
-        return Spec("chain", srcs, [], {"form": form})
+        form = g.ch.draw(3)  # 0 chain(*its) 1 from_iterable(list) 2 from_iterable(lazy outer source)
+        if form == 2:
+            # the last source is the lazy outer iterable; its items are the member objects (filled in per world)
+            srcs.append(g.src([]))
+            srcs[-1].name += "outer"
+        return Spec("chain", srcs, [], {"form": form, "alias": g.alias(srcs) if form == 0 else None})
 
     def a(self, L, spec, S, F):
         form = spec.p["form"]
@@ -401,17 +437,14 @@ class _Chain(ToolBase):
             return L.chain(*S)
         if form == 1:
             return L.chain.from_iterable(list(S))
-
-        async def outer():
-            for s in S:
-                yield s
-
-        return L.chain.from_iterable(outer())
+        return L.chain.from_iterable(S[-1])
 
     def r(self, spec, S, F):
         if spec.p["form"] == 0:
             return itertools.chain(*S)
-        return itertools.chain.from_iterable(iter(list(S)))
+        if spec.p["form"] == 1:
+            return itertools.chain.from_iterable(iter(list(S)))
+        return itertools.chain.from_iterable(S[-1])
 
 
 @_reg(TOOLS, "compress")
@@ -512,7 +545,7 @@ class _StarMap(ToolBase):
     def gen(self, g):
         n = g.ch.draw(g.cfg.max_len + 1)
         rows = [tuple(g.items(g.ch.between(1, 3))) for _ in range(n)]
-        return Spec("starmap", [g.src(rows)], [g.fn("combine")], {})
+        return Spec("starmap", [g.src(rows)], [g.combiner()], {})
 
     def a(self, L, spec, S, F):
         return L.starmap(F[0], S[0])
@@ -532,7 +565,7 @@ class _ZipLongest(ToolBase):
         pool = [i for sp in srcs for i in sp.items]
         if fill is not ABSENT and pool and g.ch.chance(1, 3):
             fill = pool[g.ch.draw(len(pool))]  # the fill value is also one of the items (same object)
-        return Spec("zip_longest", srcs, [], {"fillvalue": fill})
+        return Spec("zip_longest", srcs, [], {"fillvalue": fill, "alias": g.alias(srcs)})
 
     def a(self, L, spec, S, F):
         return L.zip_longest(*S, **_kw(fillvalue=spec.p["fillvalue"]))
@@ -623,17 +656,30 @@ class _GroupBy(ToolBase):
         items = g.items()
         key = g.keyfn()
         peeks = tuple(g.ch.draw(4) for _ in range(4))  # 3 = the whole group
-        return Spec("groupby", [g.src(items)], [key], {"peeks": peeks})
+        # after a new group arrived, step the handle of an earlier (now stale) group once
+        stale = tuple(g.ch.weighted([4, 2, 2, 1]) for _ in range(4))  # 0 none, k: the group k positions back
+        return Spec("groupby", [g.src(items)], [key], {"peeks": peeks, "stale": stale})
 
     def a(self, L, spec, S, F):
         gb = L.groupby(S[0], F[0]) if F[0] is not None else L.groupby(S[0])
         peeks = spec.p["peeks"]
 
+        stale = spec.p["stale"]
+        stop = ("stale-stop",)
+
         async def driver():
             n = 0
+            groups = []
             try:
                 async for key, group in gb:
                     yield ("key", key)
+                    back = stale[n % 4]
+                    if back and len(groups) >= back:
+                        try:
+                            yield ("stale", await groups[-back].__anext__())
+                        except StopAsyncIteration:
+                            yield stop
+                    groups.append(group)
                     peek = peeks[n % 4]
                     n += 1
                     taken = 0
@@ -651,10 +697,21 @@ class _GroupBy(ToolBase):
         gb = itertools.groupby(S[0], F[0]) if F[0] is not None else itertools.groupby(S[0])
         peeks = spec.p["peeks"]
 
+        stale = spec.p["stale"]
+        stop = ("stale-stop",)
+
         def driver():
             n = 0
+            groups = []
             for key, group in gb:
                 yield ("key", key)
+                back = stale[n % 4]
+                if back and len(groups) >= back:
+                    try:
+                        yield ("stale", next(groups[-back]))
+                    except StopIteration:
+                        yield stop
+                groups.append(group)
                 peek = peeks[n % 4]
                 n += 1
                 taken = 0
